@@ -440,7 +440,11 @@ func (d *driver) elementwise(r *ring.Ring, toy bool, positions []int) {
 					scBig.Sub(scBig, big.NewInt(1))
 				case "zero":
 					scBig.SetInt64(0)
-				case "mix", "q":
+				case "q": // negative, magnitude within one word
+					mags := []uint64{1, 3, 65536, ^uint64(0), d.rng.Uint64()}
+					scBig.SetUint64(mags[d.rng.Intn(len(mags))])
+					scBig.Neg(scBig)
+				case "mix":
 					scBig.SetInt64(-1)
 					scBig.Mul(scBig, new(big.Int).SetUint64(d.rng.Uint64()))
 					scBig.Lsh(scBig, 70)
